@@ -9,8 +9,8 @@ from harness import zones as Z
 
 ID = "C06"
 BACKENDS = ("py", "rs")
-GEN_MODULES = ("Tables", "Helpers")
-MIN_THEOREMS = 19
+GEN_MODULES = ("Tables", "Helpers", "RsHelpers", "PreciseDiff", "RsPreciseDiff")
+MIN_THEOREMS = 26
 US = D.US
 DAY = 86400 * US
 YMAX = Z.YMAX_QUICK
@@ -26,6 +26,12 @@ EXHAUSTIVE = {"quick": False, "thorough": True}
 TRUSTED = [
     "Model/PreciseDiff.lean (preciseDiffPy, preciseDiffRs), Model/Interval.lean are hand models of _helpers.precise_diff, "
     "rust/src/python/helpers.rs::precise_diff and Interval.__new__/__init__/getters, tied by this correspondence run",
+    "in addition the integer layer of both precise_diff implementations (borrow cascade, month/year borrow, signed tuple, total_days) "
+    "and the plain logic of their object layer (sign/swap, zone-name test, condition and position of the UTC shift, the unix time of "
+    "shift_to_utc) are regenerated from the source on every run (tools/gen_precisediff.py -> Gen/PreciseDiff.lean, tools/gen_rust_pd.py "
+    "-> Gen/RsPreciseDiff.lean) and proved equal to the model for all integers (Proofs/PDGen.lean, Proofs/PDGenRs.lean, theorems "
+    "precise_diff_*source_eq_model); hand-modelled and tied by the correspondence run only: datetime == and >, d - utcoffset (pyShift), "
+    "pyo3 field extraction, helpers::local_time, the derived tuple ordering of DateTimeInfo (their source text is pinned)",
     "Model/AddDur.lean + Model/DTOps.lean (add) model helpers.add_duration / DateTime.add (shared with C03/C04); the reply of an "
     "iv op contains start+interval computed by the model, so the composition add∘precise_diff is tied here as well",
     "CPython datetime comparison is modelled as: same tzinfo object => field comparison, else comparison of wall-offset; "
